@@ -18,26 +18,56 @@
 -/
 namespace Placement.Policy
 
+/-! ## Names
+
+Rule names, role names, paths, handler names ... are compared thousands of times when the finite tables are
+checked by kernel evaluation, and `String` operations are very slow there.  A `Name` is the UTF-8 bytes of
+the string read as one base-256 number behind a leading 1 — an injective code, so equality of names *is*
+equality of strings, and it is a single `Nat` comparison.  `n!"text"` is the literal notation (the number is
+computed when the file is elaborated); the generated tables are written with it and stay readable. -/
+
+structure Name where
+  code : Nat
+deriving DecidableEq, Inhabited, Hashable
+
+def Name.ofString (s : String) : Name :=
+  ⟨s.toUTF8.foldl (fun acc b => acc * 256 + b.toNat) 1⟩
+
+def Name.bytesAux : Nat → Nat → List UInt8 → List UInt8
+  | 0, _, acc => acc
+  | fuel + 1, n, acc => if n ≤ 1 then acc else Name.bytesAux fuel (n / 256) (UInt8.ofNat (n % 256) :: acc)
+
+/-- The string a name stands for (used for printing and for comparing with request data). -/
+def Name.str (n : Name) : String :=
+  String.fromUTF8! ⟨(Name.bytesAux (n.code.log2 + 1) n.code []).toArray⟩
+
+instance : ToString Name := ⟨Name.str⟩
+instance : Repr Name := ⟨fun n _ => "n!" ++ repr n.str⟩
+
+open Lean in
+macro:max "n!" s:str : term =>
+  `(Name.mk $(Syntax.mkNumLit (toString (Name.ofString s.getString).code)))
+
 /-! ## Syntax -/
 
 /-- Right-hand side of a `kind:match` check: a literal, or exactly `%(key)s` (substituted from the target). -/
 inductive Match
   | lit (s : String)
-  | target (key : String)
+  | target (key : Name)
 deriving DecidableEq, Repr, Inhabited
 
 inductive Check
-  | tt                                   -- `@`
-  | ff                                   -- `!`
-  | role (r : String)                    -- `role:r`
-  | rule (name : String)                 -- `rule:name`
-  | generic (kind : String) (m : Match)  -- `kind:match`, e.g. `project_id:%(project_id)s`, `system_scope:all`
+  | tt                                 -- `@`
+  | ff                                 -- `!`
+  | role (r : Name)                    -- `role:r`
+  | rule (name : Name)                 -- `rule:name`
+  | generic (kind : Name) (m : Match)  -- `kind:match`, e.g. `project_id:%(project_id)s`, `system_scope:all`
   | and (a b : Check)
   | or (a b : Check)
   | not (a : Check)
 deriving DecidableEq, Repr, Inhabited
 
-/-! ## Credentials and target -/
+/-! ## Credentials and target (request data: ordinary strings) -/
 
 /-- What `RequestContext.to_policy_values()` hands to oslo.policy (the attributes check strings can name). -/
 structure Creds where
@@ -49,7 +79,10 @@ structure Creds where
 deriving DecidableEq, Repr, Inhabited
 
 /-- The target dictionary passed to `context.can`; a value may be Python `None`. -/
-abbrev Target := List (String × Option String)
+abbrev Target := List (Name × Option String)
+
+/-- Query string of the request as far as handlers use it for the target. -/
+abbrev Query := List (Name × String)
 
 /-- Python `str()` of an optional string. -/
 def pyStr : Option String → String
@@ -62,15 +95,15 @@ def truthy : Option String → Bool
   | some s => s != ""
 
 /-- `RoleCheck`: `match.lower() in [x.lower() for x in creds['roles']]` (ASCII case folding). -/
-def hasRole (c : Creds) (r : String) : Bool := c.roles.any (fun x => x.toLower == r.toLower)
+def hasRole (c : Creds) (r : Name) : Bool := c.roles.any (fun x => x.toLower == r.str.toLower)
 
 /-- The credential attributes a `kind:` check may name in this model (the translator fails closed on
 any other kind).  `none` = the key is not in the credentials dictionary. -/
-def Creds.attr (c : Creds) (kind : String) : Option (Option String) :=
-  if kind = "project_id" then some c.projectId
-  else if kind = "user_id" then some c.userId
-  else if kind = "system_scope" then some c.systemScope
-  else if kind = "domain_id" then some c.domainId
+def Creds.attr (c : Creds) (kind : Name) : Option (Option String) :=
+  if kind = n!"project_id" then some c.projectId
+  else if kind = n!"user_id" then some c.userId
+  else if kind = n!"system_scope" then some c.systemScope
+  else if kind = n!"domain_id" then some c.domainId
   else none
 
 /-- `match % target`; `none` = KeyError (the check fails closed). -/
@@ -79,17 +112,17 @@ def Match.subst (t : Target) : Match → Option String
   | .target key => (t.lookup key).map pyStr
 
 /-- `GenericCheck.__call__` for a kind that is a key of the credentials. -/
-def genericCheck (c : Creds) (t : Target) (kind : String) (m : Match) : Bool :=
+def genericCheck (c : Creds) (t : Target) (kind : Name) (m : Match) : Bool :=
   match m.subst t, c.attr kind with
   | some s, some v => s == pyStr v
   | _, _ => false
 
 /-! ## Semantics of checks -/
 
-abbrev Rules := List (String × Check)
+abbrev Rules := List (Name × Check)
 
 /-- A check evaluated with a given valuation of `rule:` references. -/
-def evalWith (ruleVal : String → Bool) (c : Creds) (t : Target) : Check → Bool
+def evalWith (ruleVal : Name → Bool) (c : Creds) (t : Target) : Check → Bool
   | .tt => true
   | .ff => false
   | .role r => hasRole c r
@@ -101,7 +134,7 @@ def evalWith (ruleVal : String → Bool) (c : Creds) (t : Target) : Check → Bo
 
 /-- Value of the rule called `name` with `fuel` levels of `rule:` references; an unknown rule fails
 closed (`RuleCheck` catches `KeyError`), exhausted fuel fails closed as well (see `fuelSufficient`). -/
-def ruleVal (rules : Rules) (c : Creds) (t : Target) : Nat → String → Bool
+def ruleVal (rules : Rules) (c : Creds) (t : Target) : Nat → Name → Bool
   | 0, _ => false
   | fuel + 1, name =>
     match rules.lookup name with
@@ -111,21 +144,21 @@ def ruleVal (rules : Rules) (c : Creds) (t : Target) : Nat → String → Bool
 /-- Enough for any acyclic table: a chain of references visits each rule at most once. -/
 def fuelFor (rules : Rules) : Nat := rules.length + 1
 
-def evalRule (rules : Rules) (name : String) (c : Creds) (t : Target) : Bool :=
+def evalRule (rules : Rules) (name : Name) (c : Creds) (t : Target) : Bool :=
   ruleVal rules c t (fuelFor rules) name
 
 def eval (rules : Rules) (chk : Check) (c : Creds) (t : Target) : Bool :=
   evalWith (ruleVal rules c t (fuelFor rules)) c t chk
 
 /-- Does evaluating the check stay within `fuel` levels of references (never hits the fuel floor)? -/
-def withinFuelCheck (ruleOk : String → Bool) : Check → Bool
+def withinFuelCheck (ruleOk : Name → Bool) : Check → Bool
   | .rule n => ruleOk n
   | .and a b => withinFuelCheck ruleOk a && withinFuelCheck ruleOk b
   | .or a b => withinFuelCheck ruleOk a && withinFuelCheck ruleOk b
   | .not a => withinFuelCheck ruleOk a
   | _ => true
 
-def withinFuel (rules : Rules) : Nat → String → Bool
+def withinFuel (rules : Rules) : Nat → Name → Bool
   | 0, _ => false
   | fuel + 1, name =>
     match rules.lookup name with
@@ -139,16 +172,16 @@ def fuelSufficient (rules : Rules) : Bool :=
 /-! ## Registered defaults, policy file, enforcer -/
 
 structure RuleDef where
-  name : String
+  name : Name
   check : Check
   /-- `scope_types` of the registered default (empty = none given). -/
-  scopeTypes : List String := []
+  scopeTypes : List Name := []
   /-- `deprecated_rule` (its name and parsed check string), if any. -/
-  deprecated : Option (String × Check) := none
+  deprecated : Option (Name × Check) := none
   /-- `deprecated_rule.check_str != check_str` (string comparison done by oslo.policy). -/
   deprecatedDiffers : Bool := false
   /-- Documented operations `(method, path)` (`DocumentedRuleDefault.operations`). -/
-  ops : List (String × String) := []
+  ops : List (Name × Name) := []
 deriving Repr, Inhabited
 
 /-- The defaults registered by `policy.init` together with the configuration flag that decides
@@ -169,18 +202,18 @@ def RuleDef.effective (enforceNew : Bool) (d : RuleDef) : Check :=
 def Table.effectiveRules (tb : Table) (file : Rules) : Rules :=
   file ++ tb.defs.map (fun d => (d.name, d.effective tb.enforceNewDefaults))
 
-def Table.find (tb : Table) (name : String) : Option RuleDef := tb.defs.find? (·.name == name)
+def Table.find (tb : Table) (name : Name) : Option RuleDef := tb.defs.find? (·.name == name)
 
 /-- `Enforcer._enforce_scope` (the installed oslo.policy enforces scope unconditionally). -/
-def tokenScope (c : Creds) : String :=
-  if truthy c.systemScope then "system" else if truthy c.domainId then "domain" else "project"
+def tokenScope (c : Creds) : Name :=
+  if truthy c.systemScope then n!"system" else if truthy c.domainId then n!"domain" else n!"project"
 
-def scopeOk (scopeTypes : List String) (c : Creds) : Bool :=
+def scopeOk (scopeTypes : List Name) (c : Creds) : Bool :=
   scopeTypes.isEmpty || scopeTypes.contains (tokenScope c)
 
 /-- `Enforcer.authorize(rule, target, creds)` as used by `placement.policy.authorize`:
 an unregistered rule is refused, then the scope of the registered default, then the effective check. -/
-def authorise (tb : Table) (file : Rules) (ruleName : String) (c : Creds) (t : Target) : Bool :=
+def authorise (tb : Table) (file : Rules) (ruleName : Name) (c : Creds) (t : Target) : Bool :=
   match tb.find ruleName with
   | none => false
   | some d => scopeOk d.scopeTypes c && evalRule (tb.effectiveRules file) ruleName c t
@@ -188,27 +221,43 @@ def authorise (tb : Table) (file : Rules) (ruleName : String) (c : Creds) (t : T
 /-! ## Routing table, handlers -/
 
 structure Route where
-  path : String
-  method : String
-  handler : String
+  path : Name
+  method : Name
+  handler : Name
 deriving DecidableEq, Repr, Inhabited
 
 /-- How the handler builds the `target` argument of its first `context.can`. -/
 inductive TargetSpec
-  | default                      -- `{'project_id': ctx.project_id, 'user_id': ctx.user_id}`
-  | queryParam (key : String)    -- `{key: req.GET.get(key)}`
+  | default                    -- `{'project_id': ctx.project_id, 'user_id': ctx.user_id}`
+  | queryParam (key : Name)    -- `{key: req.GET.get(key)}`
+deriving DecidableEq, Repr, Inhabited
+
+/-- Something a handler evaluates before its first `context.can`.  Names are dotted paths; the first
+component of an imported alias is replaced by the module it stands for. -/
+inductive Pre
+  | call (f : Name)                  -- `f(...)`
+  | index (v : Name)                 -- `v[...]`
+  | attr (base : Name) (member : Name)   -- load of `base.member` (neither called nor subscripted)
+  | delegate (f : Name)              -- `return f(req, ...)`: the listing continues with the body of `f`
+  | stmt (kind : Name)               -- a statement other than assignment to local names / expression
+  | expr (kind : Name)               -- an expression form other than call / subscript / attribute / literal
+deriving DecidableEq, Repr, Inhabited
+
+structure Deco where
+  fn : Name
+  args : List Name := []
 deriving DecidableEq, Repr, Inhabited
 
 /-- One `def` of a handler function (version-dispatched handlers have several). -/
 structure HandlerDef where
-  name : String
+  name : Name
   ordinal : Nat := 0
-  decorators : List String := []
-  /-- Everything evaluated in the body before the first `context.can` (calls, subscripts, attribute
-  loads, statement kinds other than assignment), including helper functions it delegates to. -/
-  pre : List String := []
+  decorators : List Deco := []
+  /-- Everything evaluated in the body before the first `context.can`, including helper functions
+  it delegates to. -/
+  pre : List Pre := []
   /-- Rule name passed to the first `context.can`, `none` when the body has no such call. -/
-  rule : Option String := none
+  rule : Option Name := none
   target : TargetSpec := .default
 deriving DecidableEq, Repr, Inhabited
 
@@ -234,8 +283,7 @@ def stripSpaces (s : String) : String :=
   String.ofList ((s.toList.dropWhile isWs).reverse.dropWhile isWs).reverse
 
 /-- `NoAuthMiddleware.__call__` for a path that is not exempt, followed by
-`RequestContext.from_environ` (`roles = [r.strip() for r in X_ROLES.split(',')]`).
-`none` = 401 (no `X-Auth-Token`). -/
+`RequestContext.from_environ`.  `none` = 401 (no `X-Auth-Token`). -/
 def noauthCreds (h : AuthHeaders) : Option Creds :=
   match h.token with
   | none => none
@@ -272,35 +320,34 @@ structure Pipeline where
   routes : List Route
   handlers : List HandlerDef
   /-- `PATH_INFO` values `NoAuthMiddleware` lets through without looking at the token. -/
-  noauthExempt : List String
+  noauthExempt : List Name
   /-- `PATH_INFO` values for which `PlacementKeystoneContext` accepts a request without user. -/
-  contextExempt : List String
+  contextExempt : List Name
 deriving Inhabited
 
-def Pipeline.handlerDef (p : Pipeline) (handler : String) : Option HandlerDef :=
+def Pipeline.handlerDef (p : Pipeline) (handler : Name) : Option HandlerDef :=
   p.handlers.find? (·.name == handler)
 
-def targetOf (spec : TargetSpec) (c : Creds) (query : List (String × String)) : Target :=
+def targetOf (spec : TargetSpec) (c : Creds) (query : Query) : Target :=
   match spec with
-  | .default => [("project_id", c.projectId), ("user_id", c.userId)]
+  | .default => [(n!"project_id", c.projectId), (n!"user_id", c.userId)]
   | .queryParam key => [(key, query.lookup key)]
 
 /-- Rule and target construction of the routed handler's first `context.can`; `none` = the handler
 makes no authorisation call. -/
-def Pipeline.opInfo (p : Pipeline) (r : Route) : Option (String × TargetSpec) :=
+def Pipeline.opInfo (p : Pipeline) (r : Route) : Option (Name × TargetSpec) :=
   (p.handlerDef r.handler).bind (fun hd => hd.rule.map (fun rule => (rule, hd.target)))
 
 /-- Does the handler's authorisation call let the caller through? -/
-def Pipeline.authorisedOp (p : Pipeline) (file : Rules) (r : Route) (c : Creds)
-    (query : List (String × String)) : Bool :=
+def Pipeline.authorisedOp (p : Pipeline) (file : Rules) (r : Route) (c : Creds) (query : Query) : Bool :=
   match p.opInfo r with
   | none => true
   | some (rule, tgt) => authorise p.table file rule c (targetOf tgt c query)
 
 /-- Outcome of the request up to and including the first `context.can` of the routed handler.
 `pathInfo` is what the middlewares compare with their exemption lists, `r` the matched route. -/
-def Pipeline.respond (p : Pipeline) (file : Rules) (r : Route) (pathInfo : String) (h : AuthHeaders)
-    (query : List (String × String)) : Verdict :=
+def Pipeline.respond (p : Pipeline) (file : Rules) (r : Route) (pathInfo : Name) (h : AuthHeaders)
+    (query : Query) : Verdict :=
   if p.noauthExempt.contains pathInfo then
     -- passed through untouched: no user in the environment
     if p.contextExempt.contains pathInfo then
